@@ -91,6 +91,15 @@ def op_term(op, ob, gt):
         return "(RCollectOwner %d)" % op[1]
     if k == "CollectObj":
         return "(RCollectObj %d)" % op[1]
+    if k == "SetLink":
+        return "(RSetLink %d %d %s)" % (op[1], FNUM[op[2]], lst([] if op[3] is None else [str(op[3])]))
+    if k == "Mut":
+        m = ob["mut"]
+        c = 5 + 3 * op[1] + {"kids": 0, "m": 1, "s": 2}[op[2]]
+        if m is None:
+            raise ValueError("container mutation not executed: %r" % (op,))
+        return "(RSetItems %d %s %s %s %s)" % (c, lst(str(x) for x in m["items"]), lst(str(x) for x in m["removed"]),
+                                               lst(str(x) for x in m["added"]), b(m["fired"]))
     raise ValueError(op)
 
 
@@ -251,7 +260,7 @@ TEXTS = ["value", "f.value", "f:value", "f.g.value", "kids.items.value2", "kids:
 
 def mk_reg(kind, root, hid, dsp, gs):
     if isinstance(gs, str):
-        return [kind, root, hid, 0, None, gs]
+        return [kind, root, hid, 0 if dsp == 1 else dsp, None, gs]      # dispatch="same" / "ui"
     return [kind, root, hid, dsp, gs, None]
 
 
@@ -304,7 +313,7 @@ def gen_case(rnd, ctx, maxlen):
         r = rnd.random()
         if r < 0.38 and live_h and live_o:
             op = mk_reg("Reg", rnd.choice(live_o[:2] if rnd.random() < 0.7 else live_o), rnd.choice(live_h),
-                        rnd.randint(0, 1), rnd.choice(graphsets))
+                        rnd.randint(0, 2), rnd.choice(graphsets))
             regs.append(op)
         elif r < 0.70 and live_h and live_o:
             cand = [x for x in regs if x[1] in live_o and x[2] in live_h]
@@ -313,7 +322,7 @@ def gen_case(rnd, ctx, maxlen):
                 regs.remove(x)
                 op = ["Unreg"] + x[1:]
             else:
-                op = mk_reg("Unreg", rnd.choice(live_o), rnd.choice(live_h), rnd.randint(0, 1), rnd.choice(graphsets))
+                op = mk_reg("Unreg", rnd.choice(live_o), rnd.choice(live_h), rnd.randint(0, 2), rnd.choice(graphsets))
         elif r < 0.93 and live_o:
             i = rnd.choice(live_o)
             names = [x for x in ("value", "value2") if x in TRAITS[objs[i]["cls"]]]
@@ -335,6 +344,108 @@ def gen_case(rnd, ctx, maxlen):
         ops = [["Change", 0, FNUM["value2"]]]
     ctx.count("history-length:%02d" % len(ops))
     ctx.count("failure-share:%s" % bad)
+    return dict(objs=objs, handlers=handlers, ops=ops)
+
+
+def gen_dyn_case(rnd, ctx, maxlen):
+    """Registrations interleaved with mutations of the object graph (Instance links, list / dict / set
+    items in place).  All objects have all traits, no failure points, links only to higher indices
+    (acyclic: cycles through the root are C08's known finding F14), so that maintainers never raise."""
+    n = rnd.randint(3, 5)
+    objs = []
+    for i in range(n):
+        hi = list(range(i + 1, n))
+        d = {"cls": "N", "w": None}
+        if hi and rnd.random() < 0.7:
+            d["f"] = rnd.choice(hi)
+        if hi and rnd.random() < 0.5:
+            d["g"] = rnd.choice(hi)
+        d["kids"] = [rnd.choice(hi) for _ in range(rnd.choice([0, 1, 2, 3]))] if hi else []
+        d["m"] = [rnd.choice(hi) for _ in range(rnd.choice([0, 1, 2]))] if hi else []
+        d["s"] = sorted(set(rnd.choice(hi) for _ in range(rnd.choice([0, 1, 2])))) if hi else []
+        objs.append(d)
+    nh = rnd.randint(1, 3)
+    handlers = [rnd.choice(["func", "meth"]) for _ in range(nh)]
+    if rnd.random() < 0.3:
+        graphsets = [rnd.choice(TEXTS[:12]) for _ in range(rnd.randint(1, 3))]
+    else:
+        graphsets = []
+        for _ in range(rnd.randint(1, 3)):
+            gs = []
+            for _ in range(rnd.choice([1, 1, 2])):
+                g = gen_graph(rnd, rnd.randint(1, 3), 0.0)
+                if g not in gs:
+                    gs.append(g)
+            graphsets.append(gs)
+    ctx.count("graphs-from:" + ("text" if isinstance(graphsets[0], str) else "objects") + "(dynamic)")
+    # generation-time copy of the containers (only to produce valid indices / keys)
+    kids = {i: list(d["kids"]) for i, d in enumerate(objs)}
+    mkeys = {i: ["k%d" % j for j in range(len(d["m"]))] for i, d in enumerate(objs)}
+    link = {(i, fld): d.get(fld) for i, d in enumerate(objs) for fld in ("f", "g")}
+    live_h = list(range(nh))
+    regs, ops = [], []
+    for _ in range(rnd.randint(2, maxlen)):
+        r = rnd.random()
+        if r < 0.25:
+            op = mk_reg("Reg", 0 if rnd.random() < 0.8 else rnd.randrange(n), rnd.choice(live_h), rnd.randint(0, 2),
+                        rnd.choice(graphsets))
+            regs.append(op)
+        elif r < 0.45:
+            if regs and rnd.random() < 0.85:
+                x = rnd.choice(regs)
+                regs.remove(x)
+                op = ["Unreg"] + x[1:]
+            else:
+                op = mk_reg("Unreg", 0, rnd.choice(live_h), rnd.randint(0, 2), rnd.choice(graphsets))
+        elif r < 0.62:
+            op = ["Change", rnd.randrange(n), FNUM[rnd.choice(["value", "value2"])]]
+        else:
+            i = rnd.choice([0, 0] + list(range(n - 1)))
+            hi = list(range(i + 1, n))
+            if not hi:
+                continue
+            what = rnd.choice(["link", "link", "append", "pop", "setitem", "dset", "ddel", "sadd", "sdiscard"])
+            if what == "link":
+                fld = rnd.choice(["f", "g"])
+                cur = link[(i, fld)]
+                new = rnd.choice([x for x in hi + [None] if x != cur] or [None])
+                if new == cur:
+                    continue
+                link[(i, fld)] = new
+                op = ["SetLink", i, fld, new]
+            elif what == "append":
+                j = rnd.choice(hi)
+                kids[i].append(j)
+                op = ["Mut", i, "kids", "append", j]
+            elif what == "pop" and kids[i]:
+                k = rnd.randrange(len(kids[i]))
+                kids[i].pop(k)
+                op = ["Mut", i, "kids", "pop", k]
+            elif what == "setitem" and kids[i]:
+                k = rnd.randrange(len(kids[i]))
+                j = rnd.choice(hi)
+                kids[i][k] = j
+                op = ["Mut", i, "kids", "setitem", k, j]
+            elif what == "dset":
+                key = rnd.choice(["k0", "k1", "k2"])
+                if key not in mkeys[i]:
+                    mkeys[i].append(key)
+                op = ["Mut", i, "m", "dset", key, rnd.choice(hi)]
+            elif what == "ddel" and mkeys[i]:
+                key = rnd.choice(mkeys[i])
+                mkeys[i].remove(key)
+                op = ["Mut", i, "m", "ddel", key]
+            elif what in ("sadd", "sdiscard"):
+                op = ["Mut", i, "s", what, rnd.choice(hi)]
+            else:
+                continue
+        ops.append(op)
+        ctx.count("op:" + op[0] + ("(text)" if op[0] in ("Reg", "Unreg") and op[5] is not None else "")
+                  + ("(%s)" % op[3] if op[0] == "Mut" else ""))
+    if not ops:
+        ops = [["Change", 0, FNUM["value2"]]]
+    ctx.count("history-length:%02d" % len(ops))
+    ctx.count("case:dynamic")
     return dict(objs=objs, handlers=handlers, ops=ops)
 
 
@@ -383,7 +494,7 @@ def run_block(ctx, cases, tag, evaluate):
     hist.evaluate = evaluate
     try:
         hist.run(ctx, "c09_driver.py", cases, to_term, HEADER, CASE_T, key_fn, describe, nontrivial,
-                 relation="C09.Corr.corr_codes (Model.step = observe machinery on every step)", tag=tag)
+                 relation="C09.Corr.corr_codes (Model.step / Dyn.dstep = observe machinery on every step)", tag=tag)
     finally:
         hist.evaluate = saved
 
@@ -401,14 +512,18 @@ def run(ctx):
     ctx.cov["rule"] = ("random histories of register / unregister (1-3 parallel graphs, depth <= 4, named / list / dict / "
                        "set item nodes, notify and optional flags, failure points: missing trait, non-container, "
                        "non-HasTraits), scalar changes and collections over a static pool of 2-5 objects with sharing, "
-                       "duplicates and cycles; 1-3 handlers (function / bound method) x 2 dispatchers; a case is "
+                       "duplicates and cycles; every third case is dynamic: all-valid acyclic pool, registrations interleaved with "
+                       "Instance-link reassignments and in-place list / dict / set mutations (maintainers re-hook the "
+                       "downstream graph; compared with C09/Dyn.v, the law follows the current heap); "
+                       "1-3 handlers (function / bound method) x 3 dispatchers (same, a custom callable, ui on the main thread); a case is "
                        "non-trivial if some step raises or calls a handler; distinct = distinct (pool, handlers, history)")
     rnd = random.Random(ctx.seed)
     n, maxlen = (700, 10) if ctx.tier == "quick" else (9000, 20)
     if ctx.replay:
         cases = [json.load(open(ctx.replay))["replay"]["case"]]
     else:
-        cases = corpus() + [gen_case(rnd, ctx, maxlen) for _ in range(n)]
+        cases = corpus() + [gen_case(rnd, ctx, maxlen) if k % 3 else gen_dyn_case(rnd, ctx, maxlen + 4)
+                            for k in range(n)]
     for c in cases[:2] + cases[-2:]:
         ctx.sample(c)
     # shards of 100 cases (the terms are large: parsing dominates); one driver run per block of 2400 cases
